@@ -166,6 +166,18 @@ class StrVal:
         return "str:%r" % c if c is not None else "str:<%s>" % self.t
 
 
+class CharStr:
+    """a String held as the list of its characters (z3 Int code points); used where the text is built character by
+    character (the lexer), so that lengths are concrete on every path and no string theory is needed"""
+    __slots__ = ("chars",)
+
+    def __init__(self, chars=()):
+        self.chars = tuple(chars)
+
+    def __repr__(self):
+        return "chars:%d" % len(self.chars)
+
+
 class Closure:
     __slots__ = ("key", "captures", "parent")
 
@@ -439,10 +451,21 @@ def parse_place(p):
         return ("local", p)
     if p.startswith("*"):
         return ("deref", parse_place(p[1:]))
-    if p.endswith("]") and not p.startswith("("):
-        # index projection  base[_i]  /  base[N of M]
-        j = p.rindex("[")
-        return ("index", parse_place(p[:j]), p[j + 1:-1].strip())
+    if p.endswith("]"):
+        # index projection  base[_i]  /  base[N of M]   (the base may be parenthesised and contain array types like [u32; 2])
+        d = 0
+        j = len(p) - 1
+        while j >= 0:
+            if p[j] == "]":
+                d += 1
+            elif p[j] == "[":
+                d -= 1
+                if d == 0:
+                    break
+            j -= 1
+        base = p[:j]
+        if base and base.count("(") == base.count(")"):
+            return ("index", parse_place(base), p[j + 1:-1].strip())
     if p.startswith("(") and p.endswith(")"):
         # could be "(inner)" or "(inner)[..]" handled above; make sure the parens match each other
         d = 0
@@ -499,6 +522,12 @@ def split_call(callstr):
     instr = False
     while j >= 0:
         c = callstr[j]
+        if not instr and c == "'" and j >= 2 and callstr[j - 2] == "'":
+            j -= 3          # a character literal such as '(' or ')'
+            continue
+        if not instr and c == "'" and j >= 3 and callstr[j - 3] == "'" and callstr[j - 2] == "\\":
+            j -= 4          # an escaped character literal such as '\n'
+            continue
         if c == '"' and (j == 0 or callstr[j - 1] != "\\"):
             instr = not instr
         elif not instr:
@@ -539,6 +568,7 @@ class Executor:
         self.active = {}
         self.cuts = {}
         self.byname_cache = {}
+        self.generics_cache = {}
         self.resolve_cache = {}
         for name, lst in fns.items():
             if "{closure#" in name:
@@ -1208,6 +1238,31 @@ class Executor:
             raise Unsupported("ambiguous function %s: %s" % (c, [f.name for f in cands]))
         return None
 
+    def fn_generics(self, f):
+        """names of the function's own type parameters (read from the source), for binding call-site turbofish arguments"""
+        if f.name in self.generics_cache:
+            return self.generics_cache[f.name]
+        meth = f.name.rsplit("::", 1)[-1]
+        files = []
+        m = re.search(r"<impl at ((?:src|tests)/[\w/.-]+\.rs):(\d+):", f.name)
+        if m:
+            files = [(os.path.join(self.srcdir, m.group(1)), int(m.group(2)))]
+        names = []
+        for path, line in files:
+            txt = open(path).read().split("\n")
+            for k in range(line - 1, len(txt)):
+                mm = re.search(r"\bfn\s+%s\s*<([^>(]*)>" % re.escape(meth), txt[k])
+                if mm:
+                    for part in split_top(mm.group(1)):
+                        nm = part.split(":")[0].strip()
+                        if nm and not nm.startswith("'") and not nm.startswith("const "):
+                            names.append(nm)
+                    break
+                if re.search(r"\bfn\s+%s\s*\(" % re.escape(meth), txt[k]):
+                    break
+        self.generics_cache[f.name] = names
+        return names
+
     def fn_by_suffix(self, suffix):
         """harness helper: the unique MIR function whose name ends with `suffix`"""
         if suffix in self.byname_cache:
@@ -1282,6 +1337,14 @@ class Executor:
                 return itertools.chain([first], g)
         f = self.resolve(callee)
         if f is not None and f.blocks:
+            gnames = self.fn_generics(f)
+            if gnames:
+                mt = re.search(r"::<([^<>]*(?:<[^<>]*>[^<>]*)*)>$", callee.strip())
+                if mt:
+                    targs = split_top(mt.group(1))
+                    targs = [a for a in targs if not a.strip().startswith("'")]
+                    if len(targs) == len(gnames):
+                        self.pending_generics = dict(zip(gnames, [a.strip() for a in targs]))
             m = re.match(r"^<((?:&(?:mut )?)+)", callee)
             if m:
                 # std's forwarding impls for references (`impl PartialEq<&B> for &A` ...): peel the extra reference levels
@@ -1344,6 +1407,8 @@ class Executor:
         fr = {name: Cell(None, name) for name in f.locals}
         fr["_0"] = fr.get("_0") or Cell(None, "_0")
         fr["__fn"] = Cell(f.name)
+        fr["__generics"] = Cell(getattr(self, "pending_generics", None))
+        self.pending_generics = None
         if len(args) != len(f.params):
             raise Unsupported("arity mismatch calling %s: %d args for %d params" % (f.name, len(args), len(f.params)))
         for (pname, _), a in zip(f.params, args):
@@ -1415,8 +1480,17 @@ class Executor:
                     taken.append(cond)
                 conds.append(cond)
                 tbs.append(tb)
-            for i in self.branches(conds):
-                yield from self.run_block(f, fr, tbs[i], depth, visits)
+            # values that lead to the same block are one alternative (matches like ' ' | '\t' | '\n' => ...)
+            merged = {}
+            order = []
+            for cnd, tb in zip(conds, tbs):
+                if tb not in merged:
+                    merged[tb] = []
+                    order.append(tb)
+                merged[tb].append(cnd)
+            mconds = [z3.Or(*merged[tb]) if len(merged[tb]) > 1 else merged[tb][0] for tb in order]
+            for i in self.branches(mconds):
+                yield from self.run_block(f, fr, order[i], depth, visits)
             return
         m = _RE_ASSERT.match(t)
         if m:
@@ -1432,9 +1506,16 @@ class Executor:
         m0 = _RE_CALL.match(t)
         if m0:
             callee, cargs = split_call(m0.group(2))
+            g = fr["__generics"].v
+            if g:
+                for gn, ga in g.items():
+                    callee = re.sub(r"(?<![\w:])%s(?![\w:])" % re.escape(gn), ga, callee)
             dest = parse_place(m0.group(1))
             args = [self.operand(fr, a) for a in cargs]
             dty = f.locals.get(dest[1], "") if dest[0] == "local" else ""
+            if g:
+                for gn, ga in g.items():
+                    dty = re.sub(r"(?<![\w:])%s(?![\w:])" % re.escape(gn), ga, dty)
             nxt = m0.group(3)
             try:
                 for rv in self.call(callee, args, dty, depth, caller=f.name):
